@@ -71,7 +71,7 @@ ASSUMPTIONS = [
 	"func itself is assumed (C06/C09); tolerance 1e-9 on float64",
 	"caller tensors being modified is only counted (not part of C08)",
 ]
-REQUIRED = {"kwargs_overlap_calls": 6, "failed_wrapper_calls": 20, "seed_history_calls": 20, "cap_calls_observed": 50, "ann_ne_out_cases": 10,
+REQUIRED = {"non_int_start_calls": 10, "ablate_large_calls": 2, "ablate_randomstate_calls": 5, "kwargs_overlap_calls": 6, "failed_wrapper_calls": 20, "seed_history_calls": 20, "cap_calls_observed": 50, "ann_ne_out_cases": 10,
 	"product_nondividing": 10, "args_cases": 50}
 TIMEOUT = {"quick": 900, "thorough": 5400}
 # cases cost 1-10 ms, a worker start (torch + numba imports) ~10 s
@@ -622,6 +622,16 @@ def func_kw(ctx):
 # the wrappers
 # --------------------------------------------------------------------------
 
+def start_kind(params, start, rec):
+	"""The object that carries the position: a Python int, a numpy integer
+	(a value read from an array or a DataFrame column) or a 0-d tensor."""
+	k = params.get("startkind", "int")
+	if start is None or k == "int":
+		return start
+	rec.count("non_int_start_calls")
+	return numpy.int64(start) if k == "npint" else torch.tensor(start)
+
+
 def case_marginalize(cls, params, rec):
 	from tangermeme.marginalize import marginalize
 	seqs, X, xd, args = setup(params)
@@ -636,8 +646,8 @@ def case_marginalize(cls, params, rec):
 	kw = func_kw(ctx)
 	kw.update(args_kw(params, args))
 	mon = gen.Immutable(X=X, **{"a%d" % j: a for j, a in enumerate(args)})
-	st, val = gen.call(marginalize, ctx.model, X, marg, start=start,
-		func=ctx.func, **kw)
+	st, val = gen.call(marginalize, ctx.model, X, marg, start=start_kind(
+		params, start, rec), func=ctx.func, **kw)
 	call_guard(rec, mon)
 	cands = [start] if start is not None else centred(L, w)
 	try:
@@ -667,9 +677,16 @@ def expected_shuffles(params, seqs, X, start, end, n, rs, rec):
 	e = end if end >= 0 else L + 1 + end
 	if params["shuffle_fn"] == "rot":
 		return [[rot_str(s, start, e, j, rs) for j in range(n)] for s in seqs]
-	from tangermeme.ersatz import shuffle
-	st, Y = gen.call(shuffle, X.clone(), start=start, end=end, n=n,
-		random_state=rs)
+	from tangermeme.ersatz import shuffle, dinucleotide_shuffle
+	# one call of the library's own shuffle on the whole batch with a fresh
+	# generator of the same seed (the shuffles themselves are judged by C02)
+	if params["shuffle_fn"] == "dinuc":
+		st, Y = gen.call(dinucleotide_shuffle, X.clone(), start=start,
+			end=end, n=n, random_state=rs)
+	else:
+		st, Y = gen.call(shuffle, X.clone(), start=start, end=end, n=n,
+			random_state=numpy.random.RandomState(rs) if params.get(
+			"rs_kind") == "RandomState" else rs)
 	if st == "raise":
 		return {"oracle": "ersatz.shuffle raised: %r" % (Y,)}
 	if tuple(Y.shape) != (len(seqs), n, 4, L):
@@ -700,6 +717,9 @@ def shuffle_kw(params):
 	if sf == "ersatz":
 		from tangermeme.ersatz import shuffle
 		return {"shuffle_fn": shuffle}
+	if sf == "dinuc":
+		from tangermeme.ersatz import dinucleotide_shuffle
+		return {"shuffle_fn": dinucleotide_shuffle}
 	return {}
 
 
@@ -715,8 +735,14 @@ def case_ablate(cls, params, rec):
 	if params["n_args"] > 0 or params.get("args_none"):
 		kw["args"] = tuple(args) if params["n_args"] else None
 	mon = gen.Immutable(X=X, **{"a%d" % j: a for j, a in enumerate(args)})
+	rs_arg = rs
+	if params.get("rs_kind") == "RandomState":
+		rs_arg = numpy.random.RandomState(rs)
+		rec.count("ablate_randomstate_calls")
+	if B * n > 2048:
+		rec.count("ablate_large_calls")
 	st, val = gen.call(ablate, ctx.model, X, start, end, n=n,
-		random_state=rs, func=ctx.func, **kw)
+		random_state=rs_arg, func=ctx.func, **kw)
 	call_guard(rec, mon)
 	exp = expected_shuffles(params, seqs, gen.ohe(seqs, dtype=xd), start, end,
 		n, rs, rec)
@@ -728,6 +754,10 @@ def case_ablate(cls, params, rec):
 			d = dict(det)
 			d["what"] = exp["bad"]
 			rec.violation(cls, params, d, mech="C08/ablate-region-not-shuffled")
+		elif st == "raise" and params["shuffle_fn"] == "dinuc":
+			# the dinucleotide shuffle refuses regions without diversity
+			# (directly and inside ablate alike)
+			rec.refusal(cls, params, repr(val)[:120])
 		elif st == "raise":
 			d = dict(det)
 			d.update(what="raised on a valid configuration",
@@ -922,7 +952,8 @@ def case_space(cls, params, rec):
 	kw = func_kw(ctx)
 	kw.update(args_kw(params, args))
 	mon = gen.Immutable(X=X, **{"a%d" % j: a for j, a in enumerate(args)})
-	st, val = gen.call(space, ctx.model, X, marg, sp, start=start,
+	st, val = gen.call(space, ctx.model, X, marg, sp, start=start_kind(
+		params, start, rec),
 		func=ctx.func, **kw)
 	call_guard(rec, mon)
 	S = len(grid)
@@ -1333,7 +1364,8 @@ def gen_marginalize(r, func, kind, n_args, k):
 		mot = rand_motif(r, w)
 	p.update(motif_form=form, motif=mot, mdtype=r.choice(XDS),
 		start=r.choice([None, 0, L - w, r.randint(0, L - w),
-		r.randint(0, L - w)]), bs=pick_bs(r, B))
+		r.randint(0, L - w)]), bs=pick_bs(r, B),
+		startkind=r.choice(["int", "int", "npint", "tensor0d"]))
 	return p
 
 
@@ -1352,13 +1384,25 @@ def gen_region(r, L, allow_neg=True):
 	return s, r.randint(s + 2, L)
 
 
-def gen_ablate(r, func, kind, n_args, k, n=None):
+def gen_ablate(r, func, kind, n_args, k, n=None, large=False):
 	p, B, L = common(r, "ablate", func, kind, n_args, k)
-	sf = ["default", "rot", "ersatz"][k % 3]
-	s, e = gen_region(r, L, allow_neg=sf != "rot")
+	sf = ["default", "rot", "ersatz", "dinuc"][k % 4]
+	if large:
+		# more example x shuffle rows than any internal block size, with
+		# shuffles that depend on the example's position in the call (per-
+		# example seeds of the dinucleotide shuffle) or on a generator state
+		sf = ["dinuc", "ersatz", "default"][k % 3]
+		p["B"] = B = r.randint(690, 900)
+		p["L"] = L = r.randint(12, 20)
+		n = 3
+	s, e = gen_region(r, L, allow_neg=sf not in ("rot", "dinuc"))
+	if sf == "dinuc" and e - s < 6:
+		s, e = 0, L
 	n = n if n is not None else r.randint(1, 5)
 	p.update(start=s, end=e, n=n, rs=r.randint(0, 1000), shuffle_fn=sf,
-		bs=pick_bs(r, B * n))
+		bs=pick_bs(r, B * n) if not large else 512)
+	if sf in ("default", "ersatz") and (large or r.random() < 0.3):
+		p["rs_kind"] = "RandomState"
 	return p
 
 
@@ -1431,7 +1475,8 @@ def gen_space(r, func, kind, n_args, k, S, gaps):
 			grid[-1] = row
 	p.update(motif_form=form, motifs=mots, mdtype=r.choice(XDS),
 		spacing=grid, spacing_form=r.choice(["list", "tensor", "numpy"]),
-		start=start, bs=pick_bs(r, B))
+		start=start, bs=pick_bs(r, B),
+		startkind=r.choice(["int", "int", "npint", "tensor0d"]))
 	return p
 
 
@@ -1538,6 +1583,10 @@ def run_unit(unit, rec):
 					for _ in range(2):
 						run_case(cls, gen_ablate(r, func, kind, n_args, kk(),
 							n=n), rec)
+		if kind == "tensor":
+			for j in range(3):
+				run_case("ablate-large", gen_ablate(r, "predict", kind, 0,
+					kk(), large=True), rec)
 	elif cls == "space":
 		for n_args in (0, 1, 2):
 			for func in funcs_for(n_args):
